@@ -87,7 +87,7 @@ func (w *World) buildVC(fn *ssa.Function) *VC {
 	vc := newVC(w, fn)
 	vc.cmd("(declare-const wm0 Int)")
 	vc.cmd(fmt.Sprintf("(assert (and (>= wm0 %d) (<= wm0 1152921504606846976)))", staticEnd))
-	st := &State{heap: map[string]string{}, ghost: map[string]string{}, wm: "wm0"}
+	st := &State{heap: map[string]string{}, ghost: map[string]string{}, wm: "wm0", epoch: map[string][2]string{}}
 	fr := vc.newFrame(fn, nil)
 	fr.isRoot = true
 	fr.st = st
